@@ -919,7 +919,28 @@ fn inner_identity(s: &mut Session, rng: &mut Rng, run: u32) {
     add(s, "pwb-same-pad-twice", run, &banks, Expect::MustReject("two PWB packets deliver the same pad"));
 }
 
+/// Errors raised inside the loop over the (board, chip) groups of PWB chunks. The groups live in a
+/// `HashMap`, whose iteration order is random per process: when two groups fail for different
+/// reasons, WHICH error is reported is not determined by the input (the model fixes one order).
+/// Two such errors are the same outcome for C10 ("the build is rejected").
+const GROUP_LOOP_ERRORS: [&str; 7] = [
+    "BadPadwing", "PadwingBoardIdMismatch", "PadPositionError", "PadBaselineError", "PadGainError", "PadDelayError",
+    "DuplicatePadSignal",
+];
+
+fn agree(imp: &str, model: &str) -> bool {
+    match (imp.strip_prefix("err "), model.strip_prefix("err ")) {
+        (Some(a), Some(b)) => {
+            let kind = |x: &str| x.split([' ', ':']).next().unwrap_or("").to_string();
+            let (a, b) = (kind(a), kind(b));
+            a != b && GROUP_LOOP_ERRORS.contains(&a.as_str()) && GROUP_LOOP_ERRORS.contains(&b.as_str())
+        }
+        _ => false,
+    }
+}
+
 pub fn generate(s: &mut Session, thorough: bool) -> bool {
+    s.agree = Some(agree);
     let mut rng = Rng::new(s.seed);
     let runs = run_classes();
     // (i) every (board, channel) pair and every installed (board, chip, channel) triple
